@@ -8,3 +8,8 @@ From ZI Require Import Model.Ro.
 Inductive reach (g : graph) : node -> node -> Prop :=
 | reach_base x b : In b (bases g x) -> reach g x b
 | reach_step x b t : In b (bases g x) -> reach g b t -> reach g x t.
+
+(* a rank: every base sits strictly lower.  A graph is acyclic when it has one. *)
+Definition ranked (g : graph) (r : node -> nat) : Prop :=
+  forall x b, In b (bases g x) -> r b < r x.
+Definition acyclic (g : graph) : Prop := exists r, ranked g r.
